@@ -117,6 +117,10 @@ _API = None
 def _api():
     global _API
     if _API is None:
+        # the expression is evaluated inside this worker process: a change that makes an evaluation explode (a shift by
+        # an astronomically large count) must end in a MemoryError here, not in an exhausted machine
+        import resource
+        resource.setrlimit(resource.RLIMIT_AS, (6 << 30, 6 << 30))
         runner._import_target()
         from bespokeasm.expression import parse_expression
         from bespokeasm.assembler.label_scope import GlobalLabelScope
